@@ -80,9 +80,21 @@ def truth_eval(t, subst):
     if op == 'not':
         return not truth_eval(t[1], subst)
     if op == 'bool':
+        # three-valued: a decided operand settles the result whatever the undecidable ones are
+        vals, unknown = [], None
+        for x in t[2]:
+            try:
+                vals.append(bool(truth_eval(x, subst)))
+            except (Unknown, KeyError, TypeError) as e:
+                unknown = e
         if t[1] == 'and':
-            return all(truth_eval(x, subst) for x in t[2])
-        return any(truth_eval(x, subst) for x in t[2])
+            if any(v is False for v in vals):
+                return False
+        elif any(v is True for v in vals):
+            return True
+        if unknown is not None:
+            raise unknown if isinstance(unknown, Unknown) else Unknown(show(t))
+        return t[1] == 'and'
     if op == 'cmp':
         a, b = value_eval(t[2], subst), value_eval(t[3], subst)
         if isinstance(a, tuple) or (isinstance(b, tuple) and t[1] not in ('in', 'not in')):
